@@ -38,6 +38,9 @@ func Gen(seed uint64, profile string) *Scenario {
 		sc.Dst = "/w/deep/er/dst"
 	case 2:
 		sc.Dst = "/w/alias/dst"
+	case 3:
+		// the destination itself is a symbolic link to a directory
+		sc.Dst = simkit.Pick(simkit.NewRNG(seed, "uw/dstlink"), []string{"/w/dstlink", "/w/dstlink/"})
 	default:
 		sc.Dst = "/w/dst"
 	}
